@@ -23,6 +23,7 @@ CONSTANTS
   WithFin,     \* TRUE: revisions carry the revision controller's finalizer
   InitReg,     \* initial registry content: tag -> digest
   Foreign,     \* digests whose revision pre-exists controlled by a foreign owner
+  ForeignAct,  \* ... and whether that revision is Active (the revision of an earlier incarnation of the package, still Active)
   MidEnv,      \* TRUE: the environment may also act in the middle of a reconcile
   FixGC        \* FALSE = the code as written; TRUE = candidate repair (victim among non-current)
 
@@ -65,13 +66,13 @@ Init ==
   /\ pkg \in [src : Tags, limit : Limits, manual : {FALSE}, pull : {"Always"}, curRev : {None}, curId : {None}]
   /\ reg = InitReg
   /\ revs = [d \in D |-> IF d \in Foreign
-                          THEN [ex |-> TRUE, num |-> 1, act |-> FALSE, del |-> FALSE, fin |-> FALSE, ctrl |-> "foreign"]
+                          THEN [ex |-> TRUE, num |-> 1, act |-> ForeignAct, del |-> FALSE, fin |-> FALSE, ctrl |-> "foreign"]
                           ELSE NoRev]
   /\ pc = "idle" /\ ppkg = pkg /\ dirty = FALSE /\ snap = revs /\ cur = None
   /\ todo = <<>> /\ prnum = 0 /\ pract = FALSE
   /\ edits = 0 /\ faults = 0 /\ recs = 0 /\ gcLog = {} /\ done = FALSE
   /\ quiet = FALSE
-  /\ hist = << [t |-> "init", pkg |-> pkg, reg |-> reg, foreign |-> Foreign, withFin |-> WithFin, dseq |-> DSeq] >>
+  /\ hist = << [t |-> "init", pkg |-> pkg, reg |-> reg, foreign |-> Foreign, foreignAct |-> ForeignAct, withFin |-> WithFin, dseq |-> DSeq] >>
 
 ----------------------------------------------------------------------------
 (* Environment.  May act at any time, also in the middle of a reconcile.   *)
